@@ -59,3 +59,144 @@ package mta
 //@   ensures [C11.ciphertext-is-unit] result ==> gcd(val(c), nsq(pk)) == 1
 //@   ensures [C12.equation-4] result ==> val(pf.U) == (((powmod(val(pk.N) + 1, val(pf.S1), nsq(pk)) * powmod(val(pf.S), val(pk.N), nsq(pk))) % nsq(pk)) * powmod(val(c), 0 - chalAlice(ec, val(pk.N), val(c), val(pf.Z), val(pf.U), val(pf.W)), nsq(pk))) % nsq(pk)
 //@   ensures [C12.equation-5] result ==> val(pf.W) == (((powmod(val(h1), val(pf.S1), val(NTilde)) * powmod(val(h2), val(pf.S2), val(NTilde))) % val(NTilde)) * powmod(val(pf.Z), 0 - chalAlice(ec, val(pk.N), val(c), val(pf.Z), val(pf.U), val(pf.W)), val(NTilde))) % val(NTilde)
+
+// ----- proofs.go -----
+
+//@ define wfBob(pf) = pf.Z != nil && pf.ZPrm != nil && pf.T != nil && pf.V != nil && pf.W != nil && pf.S != nil && pf.S1 != nil && pf.S2 != nil && pf.T1 != nil && pf.T2 != nil
+//@ define nnBob(pf) = val(pf.Z) >= 0 && val(pf.ZPrm) >= 0 && val(pf.T) >= 0 && val(pf.V) >= 0 && val(pf.W) >= 0 && val(pf.S) >= 0 && val(pf.S1) >= 0 && val(pf.S2) >= 0 && val(pf.T1) >= 0 && val(pf.T2) >= 0
+// challenge of Bob's proof without check: H_tag(Session; N, N+1, c1, c2, z, z', t, v, w) mod q
+//@ define chalBob(Session, c, n, c1, c2, z, zp, t, v, w) = tagged(Session, fr(fr(fr(fr(fr(fr(fr(fr(fr(le64(9), n), n + 1), c1), c2), z), zp), t), v), w)) % curveN(c)
+// and with check: H_tag(Session; N, N+1, X, c1, c2, U, z, z', t, v, w) mod q
+//@ define chalBobWC(Session, c, n, Xx, Xy, c1, c2, Ux, Uy, z, zp, t, v, w) = tagged(Session, fr(fr(fr(fr(fr(fr(fr(fr(fr(fr(fr(fr(fr(le64(13), n), n + 1), Xx), Xy), c1), c2), Ux), Uy), z), zp), t), v), w)) % curveN(c)
+
+//@ func (*ProofBob).ValidateBasic
+//@   props C06
+//@   requires pf != nil
+//@   ensures result <==> wfBob(pf)
+
+//@ func (*ProofBobWC).ValidateBasic
+//@   props C06
+//@   requires pf != nil && pf.ProofBob != nil
+//@   ensures result <==> (wfBob(pf.ProofBob) && pf.U != nil)
+
+//@ func ProofBobFromBytes
+//@   props C06 C10
+//@   ensures result1 != nil ==> result0 == nil
+//@   ensures [C10.arity] result1 == nil ==> ((len(bzs) == 10 || len(bzs) == 12) && result0 != nil && fresh(result0) && wfBob(result0) && nnBob(result0))
+//@   ensures [C10.decode] result1 == nil ==> (val(result0.Z) == beint(bytes(bzs[0])) && val(result0.ZPrm) == beint(bytes(bzs[1])) && val(result0.T) == beint(bytes(bzs[2])) && val(result0.V) == beint(bytes(bzs[3])) && val(result0.W) == beint(bytes(bzs[4])) && val(result0.S) == beint(bytes(bzs[5])) && val(result0.S1) == beint(bytes(bzs[6])) && val(result0.S2) == beint(bytes(bzs[7])) && val(result0.T1) == beint(bytes(bzs[8])) && val(result0.T2) == beint(bytes(bzs[9])))
+
+//@ func ProofBobWCFromBytes
+//@   props C06 C10 C17
+//@   requires ec != nil
+//@   ensures result1 != nil ==> result0 == nil
+//@   ensures [C10.arity] result1 == nil ==> (len(bzs) == 12 && result0 != nil && fresh(result0) && result0.ProofBob != nil && wfBob(result0.ProofBob) && nnBob(result0.ProofBob))
+//@   ensures [C17.point-on-curve] result1 == nil ==> (validPoint(result0.U) && result0.U.curve == ec && px(result0.U) == beint(bytes(bzs[10])) && py(result0.U) == beint(bytes(bzs[11])))
+
+//@ func (*ProofBob).Bytes
+//@   props C06 C10
+//@   requires pf != nil && wfBob(pf)
+//@   ensures [C10.encode] bytes(result[0]) == be(val(pf.Z)) && bytes(result[1]) == be(val(pf.ZPrm)) && bytes(result[2]) == be(val(pf.T)) && bytes(result[3]) == be(val(pf.V)) && bytes(result[4]) == be(val(pf.W)) && bytes(result[5]) == be(val(pf.S)) && bytes(result[6]) == be(val(pf.S1)) && bytes(result[7]) == be(val(pf.S2)) && bytes(result[8]) == be(val(pf.T1)) && bytes(result[9]) == be(val(pf.T2))
+
+//@ func (*ProofBobWC).Bytes
+//@   props C06 C10
+//@   requires pf != nil && pf.ProofBob != nil && wfBob(pf.ProofBob) && pf.U != nil && wfPoint(pf.U)
+//@   ensures [C10.encode] bytes(result[0]) == be(val(pf.ProofBob.Z)) && bytes(result[9]) == be(val(pf.ProofBob.T2)) && bytes(result[10]) == be(px(pf.U)) && bytes(result[11]) == be(py(pf.U))
+
+//@ func (*ProofBob).Verify
+//@   props C06 C11 C12 C13 C05
+//@   requires okCurve(ec) && (pk != nil ==> pk.N != nil) && len(Session) <= 1048576
+//@   requires pf != nil ==> (wfBob(pf) && nnBob(pf))
+//@   ensures result ==> (pf != nil && pk != nil && NTilde != nil && h1 != nil && h2 != nil && c1 != nil && c2 != nil)
+//@   ensures [C11.multiplier-and-mask-bounds] result ==> (val(pf.S1) <= q3(ec) && val(pf.T1) <= q7(ec) && val(pf.S1) >= curveN(ec) && val(pf.T1) >= curveN(ec))
+
+//@ func (*ProofBobWC).Verify
+//@   deadpoints 2
+//@   props C06 C11 C12 C13 C05
+//@   requires okCurve(ec) && (pk != nil ==> pk.N != nil) && len(Session) <= 1048576
+//@   requires pf != nil && pf.ProofBob != nil && wfBob(pf.ProofBob) && nnBob(pf.ProofBob)
+//@   requires X != nil ==> (validPoint(X) && X.curve != nil && validPoint(pf.U))
+//@   ensures result ==> (pk != nil && NTilde != nil && h1 != nil && h2 != nil && c1 != nil && c2 != nil)
+//@   ensures [C11.ranges] result ==> (0 <= val(pf.ProofBob.Z) && val(pf.ProofBob.Z) < val(NTilde) && 0 <= val(pf.ProofBob.ZPrm) && val(pf.ProofBob.ZPrm) < val(NTilde) && 0 <= val(pf.ProofBob.T) && val(pf.ProofBob.T) < val(NTilde) && 0 <= val(pf.ProofBob.V) && val(pf.ProofBob.V) < nsq(pk) && 0 <= val(pf.ProofBob.W) && val(pf.ProofBob.W) < val(NTilde) && 0 <= val(pf.ProofBob.S) && val(pf.ProofBob.S) < val(pk.N))
+//@   ensures [C11.units] result ==> (gcd(val(pf.ProofBob.Z), val(NTilde)) == 1 && gcd(val(pf.ProofBob.ZPrm), val(NTilde)) == 1 && gcd(val(pf.ProofBob.T), val(NTilde)) == 1 && gcd(val(pf.ProofBob.V), nsq(pk)) == 1 && gcd(val(pf.ProofBob.W), val(NTilde)) == 1 && gcd(val(pf.ProofBob.S), val(pk.N)) == 1 && gcd(val(pf.ProofBob.V), val(pk.N)) == 1)
+//@   ensures [C11.multiplier-and-mask-bounds] result ==> (val(pf.ProofBob.S1) <= q3(ec) && val(pf.ProofBob.T1) <= q7(ec) && val(pf.ProofBob.S1) >= curveN(ec) && val(pf.ProofBob.S2) >= curveN(ec) && val(pf.ProofBob.T1) >= curveN(ec) && val(pf.ProofBob.T2) >= curveN(ec))
+//@   ensures [C12.equation-5] (result && X == nil) ==> (powmod(val(h1), val(pf.ProofBob.S1), val(NTilde)) * powmod(val(h2), val(pf.ProofBob.S2), val(NTilde))) % val(NTilde) == (powmod(val(pf.ProofBob.Z), chalBob(Session, ec, val(pk.N), val(c1), val(c2), val(pf.ProofBob.Z), val(pf.ProofBob.ZPrm), val(pf.ProofBob.T), val(pf.ProofBob.V), val(pf.ProofBob.W)), val(NTilde)) * val(pf.ProofBob.ZPrm)) % val(NTilde)
+//@   ensures [C12.equation-7] (result && X == nil) ==> (((powmod(val(c1), val(pf.ProofBob.S1), nsq(pk)) * powmod(val(pf.ProofBob.S), val(pk.N), nsq(pk))) % nsq(pk)) * powmod(val(pk.N) + 1, val(pf.ProofBob.T1), nsq(pk))) % nsq(pk) == (powmod(val(c2), chalBob(Session, ec, val(pk.N), val(c1), val(c2), val(pf.ProofBob.Z), val(pf.ProofBob.ZPrm), val(pf.ProofBob.T), val(pf.ProofBob.V), val(pf.ProofBob.W)), nsq(pk)) * val(pf.ProofBob.V)) % nsq(pk)
+//@   ensures [C12.equation-5-with-check] (result && X != nil) ==> (powmod(val(h1), val(pf.ProofBob.S1), val(NTilde)) * powmod(val(h2), val(pf.ProofBob.S2), val(NTilde))) % val(NTilde) == (powmod(val(pf.ProofBob.Z), chalBobWC(Session, ec, val(pk.N), px(X), py(X), val(c1), val(c2), px(pf.U), py(pf.U), val(pf.ProofBob.Z), val(pf.ProofBob.ZPrm), val(pf.ProofBob.T), val(pf.ProofBob.V), val(pf.ProofBob.W)), val(NTilde)) * val(pf.ProofBob.ZPrm)) % val(NTilde)
+//@   thorough ensures [C11.public-point-consistent] (result && X != nil) ==> (ecbasex(ec, val(pf.ProofBob.S1) % curveN(ec)) == ecaddx(X.curve, ecmulx(X.curve, px(X), py(X), chalBobWC(Session, ec, val(pk.N), px(X), py(X), val(c1), val(c2), px(pf.U), py(pf.U), val(pf.ProofBob.Z), val(pf.ProofBob.ZPrm), val(pf.ProofBob.T), val(pf.ProofBob.V), val(pf.ProofBob.W))), ecmuly(X.curve, px(X), py(X), chalBobWC(Session, ec, val(pk.N), px(X), py(X), val(c1), val(c2), px(pf.U), py(pf.U), val(pf.ProofBob.Z), val(pf.ProofBob.ZPrm), val(pf.ProofBob.T), val(pf.ProofBob.V), val(pf.ProofBob.W))), px(pf.U), py(pf.U)))
+
+//@ define okBobParams(pk, NTilde, x, y) = (pk != nil ==> (pk.N != nil && val(pk.N) > 0 && bitlen(val(pk.N)) <= 4096)) && (NTilde != nil ==> (val(NTilde) > 0 && bitlen(val(NTilde)) <= 3000)) && (x != nil ==> val(x) >= 0) && (y != nil ==> val(y) >= 0)
+
+//@ func ProveBobWC
+//@   props C06 C10 C12 C13
+//@   requires okCurve(ec) && rand != nil && len(Session) <= 1048576 && okBobParams(pk, NTilde, x, y)
+//@   requires X != nil ==> validPoint(X)
+//@   ensures result1 != nil ==> result0 == nil
+//@   ensures result1 == nil ==> (result0 != nil && fresh(result0) && result0.ProofBob != nil && fresh(result0.ProofBob) && wfBob(result0.ProofBob) && result0.U != nil && wfPoint(result0.U))
+//@   ensures result1 == nil ==> (X != nil ==> (validPoint(result0.U) && px(result0.U) == ecbasex(ec, sample(0)) && py(result0.U) == ecbasey(ec, sample(0))))
+//@   ensures [C10.coins] result1 == nil ==> (0 < sample(0) && sample(0) < q3(ec) && 0 <= sample(6) && sample(6) < q7(ec) && 1 <= sample(5) && sample(5) < old(val(pk.N)))
+//@   ensures [C10.z] result1 == nil ==> val(result0.ProofBob.Z) == (powmod(old(val(h1)), old(val(x)), old(val(NTilde))) * powmod(old(val(h2)), sample(1), old(val(NTilde)))) % old(val(NTilde))
+//@   ensures [C10.zprm] result1 == nil ==> val(result0.ProofBob.ZPrm) == (powmod(old(val(h1)), sample(0), old(val(NTilde))) * powmod(old(val(h2)), sample(4), old(val(NTilde)))) % old(val(NTilde))
+//@   ensures [C10.t] result1 == nil ==> val(result0.ProofBob.T) == (powmod(old(val(h1)), old(val(y)), old(val(NTilde))) * powmod(old(val(h2)), sample(2), old(val(NTilde)))) % old(val(NTilde))
+//@   ensures [C10.v] result1 == nil ==> val(result0.ProofBob.V) == (((powmod(old(val(c1)), sample(0), old(nsq(pk))) * powmod(old(val(pk.N)) + 1, sample(6), old(nsq(pk)))) % old(nsq(pk))) * powmod(sample(5), old(val(pk.N)), old(nsq(pk)))) % old(nsq(pk))
+//@   ensures [C10.w] result1 == nil ==> val(result0.ProofBob.W) == (powmod(old(val(h1)), sample(6), old(val(NTilde))) * powmod(old(val(h2)), sample(3), old(val(NTilde)))) % old(val(NTilde))
+//@   ensures [C10.responses-without-check] (result1 == nil && X == nil) ==> (val(result0.ProofBob.S1) == chalBob(Session, ec, old(val(pk.N)), old(val(c1)), old(val(c2)), val(result0.ProofBob.Z), val(result0.ProofBob.ZPrm), val(result0.ProofBob.T), val(result0.ProofBob.V), val(result0.ProofBob.W)) * old(val(x)) + sample(0) && val(result0.ProofBob.T1) == chalBob(Session, ec, old(val(pk.N)), old(val(c1)), old(val(c2)), val(result0.ProofBob.Z), val(result0.ProofBob.ZPrm), val(result0.ProofBob.T), val(result0.ProofBob.V), val(result0.ProofBob.W)) * old(val(y)) + sample(6))
+//@   ensures [C10.responses-with-check] (result1 == nil && X != nil) ==> (val(result0.ProofBob.S1) == chalBobWC(Session, ec, old(val(pk.N)), old(px(X)), old(py(X)), old(val(c1)), old(val(c2)), px(result0.U), py(result0.U), val(result0.ProofBob.Z), val(result0.ProofBob.ZPrm), val(result0.ProofBob.T), val(result0.ProofBob.V), val(result0.ProofBob.W)) * old(val(x)) + sample(0))
+
+//@ func ProveBob
+//@   props C06 C10 C13
+//@   requires okCurve(ec) && rand != nil && len(Session) <= 1048576 && okBobParams(pk, NTilde, x, y)
+//@   ensures result1 != nil ==> result0 == nil
+//@   ensures result1 == nil ==> (result0 != nil && fresh(result0) && wfBob(result0))
+
+// ----- share_protocol.go -----
+
+//@ define q5(c) = ((curveN(c) * curveN(c)) * (curveN(c) * curveN(c))) * curveN(c)
+
+//@ func AliceInit
+//@   props C06 C13
+//@   requires okCurve(ec) && rand != nil && pkA != nil && pkA.N != nil && a != nil && bitlen(val(pkA.N)) <= 4096
+//@   requires [parameter-sizes] NTildeB != nil ==> (val(NTildeB) > 0 && bitlen(val(NTildeB)) <= 4096)
+//@   ensures [C13.encryption-domain] err == nil ==> (0 <= val(a) && val(a) < val(pkA.N))
+//@   ensures err == nil ==> (cA != nil && fresh(cA) && 0 <= val(cA) && val(cA) < nsq(pkA) && pf != nil && wfAlice(pf))
+
+//@ func BobMid
+//@   deadpoints 2
+//@   props C06 C13
+//@   requires okCurve(ec) && rand != nil && len(Session) <= 1048576 && (pkA != nil ==> (pkA.N != nil && bitlen(val(pkA.N)) <= 4096)) && b != nil
+//@   requires [parameter-sizes] NTildeA != nil ==> (val(NTildeA) > 0 && bitlen(val(NTildeA)) <= 3000)
+//@   ensures [C13.range-proof-gates-the-share] err == nil ==> (pf != nil && wfAlice(pf) && pkA != nil && cA != nil && gcd(val(cA), nsq(pkA)) == 1 && val(pf.S1) <= q3(ec))
+//@   ensures [C13.mask-below-q5] err == nil ==> (betaPrm != nil && 0 <= val(betaPrm) && val(betaPrm) < q5(ec))
+//@   ensures [C13.beta-is-minus-mask] err == nil ==> (beta != nil && val(beta) == (0 - val(betaPrm)) % curveN(ec))
+//@   ensures [C13.multiplier-domain] err == nil ==> (0 <= val(b) && val(b) < val(pkA.N) && 0 <= val(cA) && val(cA) < nsq(pkA))
+//@   ensures [C13.cB-formula] err == nil ==> (cB != nil && exists cm :: (0 <= cm && cm < nsq(pkA) && val(cB) == (powmod(val(cA), val(b), nsq(pkA)) * cm) % nsq(pkA)))
+//@   ensures err == nil ==> (piB != nil && wfBob(piB))
+
+//@ func BobMidWC
+//@   deadpoints 2
+//@   props C06 C13
+//@   requires okCurve(ec) && rand != nil && len(Session) <= 1048576 && (pkA != nil ==> (pkA.N != nil && bitlen(val(pkA.N)) <= 4096)) && b != nil
+//@   requires [parameter-sizes] NTildeA != nil ==> (val(NTildeA) > 0 && bitlen(val(NTildeA)) <= 3000)
+//@   requires B != nil ==> validPoint(B)
+//@   ensures [C13.range-proof-gates-the-share] err == nil ==> (pf != nil && wfAlice(pf) && pkA != nil && cA != nil && gcd(val(cA), nsq(pkA)) == 1 && val(pf.S1) <= q3(ec))
+//@   ensures [C13.mask-below-q5] err == nil ==> (betaPrm != nil && 0 <= val(betaPrm) && val(betaPrm) < q5(ec))
+//@   ensures [C13.beta-is-minus-mask] err == nil ==> (beta != nil && val(beta) == (0 - val(betaPrm)) % curveN(ec))
+//@   ensures err == nil ==> (cB != nil && piB != nil && piB.ProofBob != nil && wfBob(piB.ProofBob) && piB.U != nil)
+
+//@ func AliceEnd
+//@   props C06 C13
+//@   requires okCurve(ec) && len(Session) <= 1048576 && (pkA != nil ==> pkA.N != nil) && wfSK(sk)
+//@   requires pf != nil ==> (wfBob(pf) && nnBob(pf))
+//@   requires [key-wellformed] gcd((powmod(val(sk.PublicKey.N) + 1, val(sk.LambdaN), nsq(sk.PublicKey)) - 1) / val(sk.PublicKey.N), val(sk.PublicKey.N)) == 1
+//@   ensures [C13.bob-proof-gates-the-share] result1 == nil ==> (pf != nil && pkA != nil && cA != nil && cB != nil && val(pf.S1) <= q3(ec) && val(pf.T1) <= q7(ec))
+//@   ensures [C13.share-is-decryption-mod-q] result1 == nil ==> (result0 != nil && 0 <= val(result0) && val(result0) < curveN(ec) && 0 <= val(cB) && val(cB) < nsq(sk.PublicKey))
+//@   ensures result1 != nil ==> result0 == nil
+
+//@ func AliceEndWC
+//@   props C06 C13
+//@   requires okCurve(ec) && len(Session) <= 1048576 && (pkA != nil ==> pkA.N != nil) && wfSK(sk)
+//@   requires pf != nil && pf.ProofBob != nil && wfBob(pf.ProofBob) && nnBob(pf.ProofBob)
+//@   requires B != nil ==> (validPoint(B) && validPoint(pf.U))
+//@   requires [key-wellformed] gcd((powmod(val(sk.PublicKey.N) + 1, val(sk.LambdaN), nsq(sk.PublicKey)) - 1) / val(sk.PublicKey.N), val(sk.PublicKey.N)) == 1
+//@   ensures [C13.bob-proof-gates-the-share] result1 == nil ==> (pkA != nil && cA != nil && cB != nil && val(pf.ProofBob.S1) <= q3(ec) && val(pf.ProofBob.T1) <= q7(ec))
+//@   ensures [C13.share-is-decryption-mod-q] result1 == nil ==> (result0 != nil && 0 <= val(result0) && val(result0) < curveN(ec) && 0 <= val(cB) && val(cB) < nsq(sk.PublicKey))
+//@   ensures result1 != nil ==> result0 == nil
